@@ -1447,4 +1447,35 @@ theorem flushN_done : ∀ (k : Nat) (st : SSt), st.script.length < k →
     · exact ih _ (by have := h5 h4; omega)
 
 
+
+theorem writeMany_conserves (maxsize : Nat) : ∀ (ps : List Bytes) (st : SSt),
+    (∀ p ∈ ps, p.length ≤ maxsize) →
+    (writeMany maxsize ps st).wire ++ (writeMany maxsize ps st).getsendbuffer
+      = st.wire ++ st.getsendbuffer ++ (ps.map encodeNs).flatten ∧
+    (writeMany maxsize ps st).script.length ≤ st.script.length := by
+  intro ps
+  induction ps with
+  | nil => intro st _; simp [writeMany]
+  | cons p ps ih =>
+    intro st hall
+    have hp : p.length ≤ maxsize := hall p (by simp)
+    have h1 := (writeNs_conserves maxsize p st).1
+    rw [if_pos hp] at h1
+    obtain ⟨h2, h3⟩ := ih (writeNs maxsize p st).2 (fun q hq => hall q (by simp [hq]))
+    simp only [writeMany]
+    refine ⟨?_, ?_⟩
+    · rw [h2, h1]; simp
+    · have : (writeNs maxsize p st).2.script.length ≤ st.script.length := by
+        unfold writeNs
+        split
+        · simp
+        · have := (send_ok (encodeNs p) st).2.2.2.2.2
+          cases hq : send (encodeNs p) st with
+          | mk r st' =>
+            rw [hq] at this
+            cases r <;> simpa using this
+      omega
+
+
+
 end C12
